@@ -4,10 +4,15 @@
    done accounts for all n runes), the rune -> glyph mapping (map3_correct) and the glyph-exactness and advance of cutRun
    at cluster boundaries, LTR and RTL (cut_run_exact), and the advance bookkeeping of cutRun.
    wrap_terminates: the fuel passed by the model's callers always suffices when every GlyphCount is >= 1.
-   NOT proved (covered by the oracle check_conservation on the implementation's output only): that every cut the wrapper
-   makes is at cluster boundaries of a well-formed run (the composition of cut_run_exact with the line invariant needs a
-   store-structure invariant through the loops), and therefore panic freedom of a whole call (wrap_no_panic). *)
-From TV Require Import Model.Wrap Spec.Wrap Spec.WrapCut Proofs.Wrap Proofs.WrapCut Proofs.WrapLines Proofs.WrapTotal.
+   wrap_no_panic: on well-formed input (wf_runs) no call of WrapParagraph / Prepare+WrapNextLine panics.
+   wrapped_pieces_exact(_paragraph): every run placed on a returned line is a contiguous piece of one input run holding
+   exactly the glyphs of the clusters of its rune range (piece_ok), and the store keeps its structure (structure_kept):
+   together with lines_contiguous this is "nothing lost, duplicated, reordered or split off its cluster".
+   The composition goes through the store-structure invariant of Proofs/WrapStore.v.
+   The empty paragraph (n = 0) is covered by empty_paragraph_calls / empty_paragraph_wrap.
+   NOT proved: "Advance = sum of the glyph advances" at return time (false: finding F6; advance_is_sum_partial states it at
+   the time of the cut). *)
+From TV Require Import Model.Wrap Spec.Wrap Spec.WrapCut Proofs.Wrap Proofs.WrapCut Proofs.WrapLines Proofs.WrapTotal Proofs.WrapStore Proofs.WrapEmpty.
 
 (* best_is_prefix_cut (partial): from any state satisfying the line invariant, processBreakOption keeps the invariant
    (candidate prefix = chain of non-empty whole/cut runs from lineStartRune ending where the cursor run starts, same for
@@ -234,3 +239,81 @@ Example wrap_terminates_example :
   gc_pos st = true /\ runs_ok runs 3
   /\ exists w' ls, wrap_paragraph (w_zero st) cfg_zero 1 [4; 5; 5; 7] runs = Ok (w', ls, 0) /\ length ls = 3%nat.
 Proof. split; [reflexivity|]. split; [split; [reflexivity|repeat constructor]|]. vm_compute. eexists _, _. split; reflexivity. Qed.
+
+(* ---- panic freedom and exact pieces (store-structure invariant, Proofs/WrapStore.v) ------------------------------ *)
+
+(* wrap_no_panic: for every LineWrapper state w (fresh or reused) whose store holds well-formed input runs covering
+   [0,n), n >= 1 (wf_runs: contiguous, each run owns one whole glyph array made of whole clusters, monotone in the run's
+   progression, RuneCount/GlyphCount consistent), every configuration, break attribute list of length n+1 and widths:
+   WrapParagraph, the iterative API and any sequence of WrapNextLine calls after Prepare never return Panic (nor Err).
+   Invariant through both loops of wrapNextLine, fillUntil and postProcessLine: the store keeps its skeleton, the cached
+   rune -> glyph mapping is map3_spec of the run it is valid for, the line start and every recorded line end are cluster
+   boundaries of every run (is_valid_sound), every candidate is cut from a whole well-formed run (cut_run_total). *)
+Theorem wrap_no_panic : forall n w cfg attrs runs,
+  wf_runs (w_st w) runs n = true -> zlen attrs - 1 = n -> 1 <= n ->
+  (forall mw, no_panic (wrap_paragraph w cfg mw attrs runs))
+  /\ (forall widths, no_panic (wrap_iterative w cfg widths attrs runs))
+  /\ (forall widths, no_panic (run_calls (prepare w cfg attrs runs 0 0) widths)).
+Proof. exact wrap_no_panic_all. Qed.
+Print Assumptions wrap_no_panic.
+
+(* wrapped_pieces_exact: Prepare + any number of WrapNextLine calls with any widths on well-formed input: on the store
+   as it is after the last call, every text run of every returned line (text_runs: every run but the appended truncator)
+   satisfies piece_ok — it lies inside the rune range of input run o_src, has its direction, a non-empty rune range,
+   a glyph slice inside that run's array, and judged glyph by glyph on the whole array: every glyph of the slice belongs
+   to a cluster inside the rune range and every glyph outside the slice to a cluster disjoint from it (piece_glyphs_ok)
+   — and the store has kept its structure (same arrays, lengths, cluster values, rune/glyph counts, extents, end letter
+   spacing; only advances/offsets/start spacing of trimmed or zeroed glyphs change). *)
+Theorem wrapped_pieces_exact : forall n w cfg attrs runs widths w' rs,
+  wf_runs (w_st w) runs n = true -> zlen attrs - 1 = n -> 1 <= n ->
+  run_calls (prepare w cfg attrs runs 0 0) widths = Ok (w', rs) ->
+  structure_kept (w_st w) (w_st w') = true
+  /\ forall wl d l, In (wl, d) rs -> wl_line wl = Some l ->
+       forallb (piece_ok (w_st w') runs) (text_runs (o_src (c_truncator cfg)) l) = true.
+Proof. exact wrapped_pieces_exact_calls. Qed.
+Print Assumptions wrapped_pieces_exact.
+
+(* the same for WrapParagraph, including the single-run fast path (which returns the input run as is) *)
+Theorem wrapped_pieces_exact_paragraph : forall n w cfg attrs runs mw w' ls tr,
+  wf_runs (w_st w) runs n = true -> zlen attrs - 1 = n -> 1 <= n ->
+  wrap_paragraph w cfg mw attrs runs = Ok (w', ls, tr) ->
+  structure_kept (w_st w) (w_st w') = true
+  /\ forall l, In l ls -> forallb (piece_ok (w_st w') runs) (text_runs (o_src (c_truncator cfg)) l) = true.
+Proof. exact Proofs.WrapStore.wrapped_pieces_exact_paragraph. Qed.
+Print Assumptions wrapped_pieces_exact_paragraph.
+
+(* the empty paragraph (n = 0: one attribute, no runs), any wrapper state, configuration and widths: the first
+   WrapNextLine call reports done with NextLine = 0 and Truncated = 0; its line is nil, except under TruncateAfterLines = 1
+   with TextContinues, where it is the truncator alone with Runes = (0, 0); every later call returns the nil line *)
+Theorem empty_paragraph_calls : forall w cfg attrs runs mw widths,
+  runs_ok runs 0 -> zlen attrs - 1 = 0 ->
+  exists w', run_calls (prepare w cfg attrs runs 0 0) (mw :: widths)
+             = Ok (w', (empty_result cfg, true) :: map (fun _ => (mkWrapped None 0 0, true)) widths).
+Proof. exact empty_calls. Qed.
+Print Assumptions empty_paragraph_calls.
+
+(* WrapParagraph on the empty paragraph returns no line (or the truncator line), Truncated = 0, without using its fuel *)
+Theorem empty_paragraph_wrap : forall w cfg attrs runs mw,
+  runs_ok runs 0 -> zlen attrs - 1 = 0 ->
+  exists w', wrap_paragraph w cfg mw attrs runs
+             = Ok (w', match wl_line (empty_result cfg) with Some l => [l] | None => [] end, 0).
+Proof. exact empty_wrap. Qed.
+Print Assumptions empty_paragraph_wrap.
+
+(* non-vacuity of wrap_no_panic / wrapped_pieces_exact: the two-run paragraph "a a b" (second example store also has a
+   2-glyph cluster) is well-formed; three calls at width 1 return three exact pieces, the second line being a cut piece *)
+Example wrap_no_panic_example :
+  let st := [[mkGlyph 0 1 1 64 64 0 0 0; mkGlyph 1 1 1 64 64 0 0 0]; [mkGlyph 2 1 2 32 32 0 0 0; mkGlyph 2 1 2 32 32 0 0 0]; []] in
+  let runs := [mkOut 128 0 0 2 0 0 2 0; mkOut 64 0 2 1 1 0 2 0] in
+  let attrs := [4; 5; 5; 7] in
+  wf_runs st runs 3 = true
+  /\ exists w' rs, run_calls (prepare (w_zero st) cfg_zero attrs runs 0 0) [1; 1; 1; 1] = Ok (w', rs)
+       /\ map (fun x => match wl_line (fst x) with Some l => map (fun o => (o_src o, o_off o, o_cnt o, o_lo o, o_len o)) l | None => [] end) rs
+          = [[(0, 0, 1, 0, 1)]; [(0, 1, 1, 1, 1)]; [(1, 2, 1, 0, 2)]; []]
+       /\ forallb (fun x => match wl_line (fst x) with Some l => forallb (piece_ok (w_st w') runs) (text_runs 2 l) | None => true end) rs = true.
+Proof. split; [reflexivity|]. vm_compute. eexists _, _. repeat split; reflexivity. Qed.
+(* non-vacuity of the empty paragraph theorems *)
+Example empty_paragraph_example :
+  runs_ok [] 0 /\ zlen [7] - 1 = 0
+  /\ exists w', run_calls (prepare (w_zero [[]]) cfg_zero [7] [] 0 0) [10; 10] = Ok (w', [(mkWrapped None 0 0, true); (mkWrapped None 0 0, true)]).
+Proof. split; [split; [reflexivity|constructor]|]. split; [reflexivity|]. vm_compute. eexists. reflexivity. Qed.
